@@ -102,6 +102,16 @@ def mass_algebra(eng, res, rule="R-MASS-ALGEBRA"):
         a_store = [n for n in own_nodes(fi.node) if isinstance(n, ast.Assign) and isinstance(n.targets[0], ast.Attribute) and n.targets[0].attr == "_absolute_mass"]
         r_store = [n for n in own_nodes(fi.node) if isinstance(n, ast.Assign) and isinstance(n.targets[0], ast.Attribute) and n.targets[0].attr == "_relative_mass"]
         ok = len(a_store) == 1 and len(r_store) == 1 and cfg.node_of(r_store[0]) not in cfg.reachable([cfg.node_of(a_store[0])])
+        # in this setter "known" means "not None": the remainder fill legitimately produces 0.0 %, which must still get its mass
+        tests = []
+        for st in own_nodes(fi.node):
+            if isinstance(st, ast.Assign) and isinstance(st.targets[0], ast.Attribute) and st.targets[0].attr in ("_absolute_mass", "_relative_mass"):
+                for t, pol in cfg.guard_exprs(cfg.node_of(st)):
+                    if any(isinstance(x, ast.Attribute) and x.attr in ("_relative_mass", "_absolute_mass") for x in ast.walk(t)):
+                        tests.append((src(t), pol))
+        okn = bool(tests) and all(" is not None" in t or " is None" in t for t, _ in tests)
+        res.ob(rule, fi, "zero-is-known", "when the system mass arrives, a component's percentage / mass counts as known iff it is not None (0 % is a percentage)", fi.node, okn,
+               f"tests {sorted(set(tests))}")
         res.ob(rule, fi, "user-values-preserved", "never both derived in one call: a written percentage is kept and only the absolute mass derived (else the percentage is derived)",
                fi.node, ok)
     return len(found)
@@ -232,10 +242,14 @@ def propagate(eng, res, rule="R-SYSMASS-PROPAGATE"):
     for c in apps:
         srcs[src(c.args[0])] = guard_lits(flow, c)
     ok = any(k == fi.params[1] for k in srcs) and any(k.endswith(".mixture.system_mass") for k in srcs)
+    # whether a source counts as an estimate never depends on the estimates collected so far (each is cross-checked)
+    lst = {src(c.func.value) for c in apps}
+    dep = [k for k, L in srcs.items() if any(any(f"Name('{x}')" in str(l) for x in lst) for l in L)]
+    ok = ok and len(lst) == 1 and not dep
     tm = [k for k in srcs if not k.endswith("system_mass") and k != fi.params[1]]
     ok2 = len(tm) == 1 and any(l[0] == "num" and l[2] == "==" and l[3] == 0 and "Name('len')" in l[1] and f"Name('{M}')" in l[1] for l in srcs[tm[0]])
     res.ob(rule, fi, "estimate-sources", "estimates: the caller's system mass, each component's system mass, and the sum of absolute masses only when every component has one",
-           fi.node, ok and ok2, f"sources {sorted(srcs)}")
+           fi.node, ok and ok2, f"sources {sorted(srcs)}" + (f"; inclusion of {dep} depends on the estimates already collected" if dep else ""))
 
 
 def _ancestors(n):
